@@ -102,10 +102,20 @@ func (l *baseLeaf) URLPath(vals map[string]string, withOptional bool) string {
 				continue
 			}
 
-			buf.WriteString("{")
-			buf.WriteString(e.BindParameters.Parameters[0].Ident)
-			buf.WriteString("}")
+			for i, p := range e.BindParameters.Parameters {
+				// Only the first parameter of a match all style is a bind parameter.
+				if i > 0 && p.Value.Regex == nil {
+					break
+				}
+				buf.WriteString("{")
+				buf.WriteString(p.Ident)
+				buf.WriteString("}")
+			}
 		}
+	}
+
+	if buf.Len() == 0 {
+		buf.WriteString("/") // The only segment of the route is optional and excluded
 	}
 
 	pairs := make([]string, 0, len(vals)*2)
